@@ -39,6 +39,8 @@ def run_real(exe, op, wpath):
     if r.returncode != 0 or not m:
         return None, 'real library terminated abnormally (rc=%d%s)' % (r.returncode, ', signal %d' % -r.returncode if r.returncode < 0 else '')
     nums = list(map(int, m.group(1).split()))
+    rl = re.search(r'^RETLIST ((?:-?\d+ ?)*)$', out, re.M)
+    run_real.retlist = list(map(int, rl.group(1).split())) if rl else []
     return nums[9:], None
 
 def replay(ob, r, trace, d):
@@ -81,7 +83,8 @@ static int *readw(const char *p) { FILE *f = fopen(p, "r"); if (!f) return 0; in
   int *w = malloc(sizeof(int) * (n + 1)); for (long i = 0; i < n; i++) fscanf(f, "%d", &w[i]);
   if (XLIST_N == 0) { int x; while (XLIST_N < 64 && fscanf(f, "%d", &x) == 1) XLIST[XLIST_N++] = x; }
   fclose(f); return w; }
-int main(int argc, char **argv) { MODE_REAL = argv[1][0] == 'r'; W_PRE = readw(argv[2]); W_POST = argc > 3 ? readw(argv[3]) : 0; W_POST2 = argc > 4 ? readw(argv[4]) : 0;
+int main(int argc, char **argv) { MODE_REAL = argv[1][0] == 'r'; W_PRE = readw(argv[2]);
+  { FILE *rf = fopen("ret.list", "r"); int x; if (rf) { while (XRET_N < 8 && fscanf(rf, "%d", &x) == 1) XRET[XRET_N++] = x; fclose(rf); } } W_POST = argc > 3 ? readw(argv[3]) : 0; W_POST2 = argc > 4 ? readw(argv[4]) : 0;
   native_check(); printf("DONE %d\\n", n_fail); return 0; }
 '''
     open(src, 'w').write(prim + head.replace('#include "gen.c"', '#include "gen.c"') + mh.native_text() + main)
@@ -91,7 +94,7 @@ int main(int argc, char **argv) { MODE_REAL = argv[1][0] == 'r'; W_PRE = readw(a
     if cc.returncode != 0:
         res['reason'] = 'native checker did not compile: ' + cc.stdout.decode(errors='replace')[-800:]; return res
     def runchk(args):
-        rr = subprocess.run([exe2] + args, stdout=subprocess.PIPE, stderr=subprocess.PIPE, timeout=120)
+        rr = subprocess.run([exe2] + args, stdout=subprocess.PIPE, stderr=subprocess.PIPE, timeout=120, cwd=d)
         o = rr.stdout.decode(errors='replace')
         return dict(rc=rr.returncode, failed=re.findall(r'^FAIL (.*)$', o, re.M), assume_violated=re.findall(r'^ASSUME-VIOLATED (.*)$', o, re.M), done='DONE' in o)
     if err is not None:
@@ -99,6 +102,7 @@ int main(int argc, char **argv) { MODE_REAL = argv[1][0] == 'r'; W_PRE = readw(a
     else:
         p1 = os.path.join(d, 'post.w'); open(p1, 'w').write(' '.join(str(defs[k]) for k in ('LV', 'LE', 'LF', 'LC', 'LFV', 'LCV', 'LOUT', 'LINC')) + ' %d\n' % len(post) + ' '.join(map(str, post)) + '\n')
         a = ['real', pre, p1]
+        open(os.path.join(d, 'ret.list'), 'w').write(' '.join(map(str, getattr(run_real, 'retlist', []))) + '\n')
         if post2 is not None:
             p2 = os.path.join(d, 'post2.w'); open(p2, 'w').write(' '.join(str(defs[k]) for k in ('LV', 'LE', 'LF', 'LC', 'LFV', 'LCV', 'LOUT', 'LINC')) + ' %d\n' % len(post2) + ' '.join(map(str, post2)) + '\n')
             a.append(p2)
